@@ -140,7 +140,7 @@ def record(ctx: Ctx, templates: list, per_template: int, iters: int = 2, cache=N
                 relieve_jit()
             trs = dop.record_onpolicy(cache, cfg, t["algo"], t["N"], iters, seed)
             for tr in trs:
-                if tr["meta"]["dones_so_far"] > tb.exact_dones_limit(cfg):
+                if tr["meta"]["dones_so_far"] > tb.exact_dones_limit(tr["meta"].get("big_reward_so_far", False)):
                     continue        # more than 8 episode ends: the EMA leaves the exact fixed-point range (SD = 4^8)
                 traces.append(tr)
                 cases.append({"cfg": cfg, "algo": t["algo"], "N": t["N"], "iters": iters, "seed": seed,
